@@ -81,3 +81,22 @@ func ZZ_C19_DateFormat() {
 	}
 	zzvf.Reach("dateformat")
 }
+
+
+// one formatter object used repeatedly (concrete instants: same second / other millisecond,
+// next second, another day): the text depends on the instant formatted, not on what the
+// object formatted before
+//vf: paths=2000
+func ZZ_C19_DateFormatReuse() {
+	p := zzPatterns[zzvf.Choose(len(zzPatterns))]
+	base := time.Date(2024, 2, 29, 23, 59, 58, 7*1000000, time.UTC)
+	offs := []time.Duration{0, 528 * time.Millisecond, 992 * time.Millisecond, 1000 * time.Millisecond, 2 * time.Second, 36 * time.Hour}
+	df := NewDateFormat(p)
+	ok := true
+	for _, o := range offs {
+		t := base.Add(o)
+		ok = zzvf.And(ok, df.FormatTime(t) == NewDateFormat(p).FormatTime(t))
+	}
+	zzvf.Assert(ok, "dateformat/reused-formatter-gives-the-same-text")
+	zzvf.Reach("dateformat-reuse")
+}
